@@ -500,6 +500,10 @@ def execute(sc):
         violation = {"kind": v.kind, "site": v.site, "detail": v.detail[:500]}
     except StopIteration:
         pass
+    if violation is None and sim.race is not None:
+        r_ = sim.race
+        violation = {"kind": "array-modified-while-task-parked", "site": r_["function"],
+                     "detail": f"array `{r_['variable']}` (shape {r_['shape']}) held by {r_['function']}() changed while that task was parked at {r_['parked_at']}: another task wrote into it"}
     st = sim.stats
     res = {
         "ok": violation is None, "violation": violation, "notes": notes, "generator_defect": bool(notes),
